@@ -254,9 +254,10 @@ class Worker:
             killed_by = None
             built = set()
             for p in props:
-                binname = "vh-push" if p in ("C01", "C02", "C03", "C04", "C05", "C19") else ("vh-gen" if p == "C09" else "vh-ec")
+                pkg = "vh-push" if p in ("C01", "C02", "C03", "C04", "C05", "C19") else ("vh-gen" if p == "C09" else "vh-ec")
+                binname = "vh-gen" if p == "C09" else p.lower()
                 if binname not in built:
-                    code, out = sh(f"cargo build --offline --profile verif -p {binname}", cwd=f"{self.verif}/harness", env=self.env, timeout=1800)
+                    code, out = sh(f"cargo build --offline --profile verif -p {pkg} --bin {binname}", cwd=f"{self.verif}/harness", env=self.env, timeout=1800)
                     if code != 0:
                         rec["status"] = "does-not-compile"
                         rec["detail"] = [l for l in out.splitlines() if l.startswith("error")][:3]
